@@ -259,7 +259,9 @@ fn parse_precision(text: &str) -> Result<(Option<usize>, &str), FormatSpecError>
         Some('.') => {
             let (size, remaining) = parse_number(chars.as_str())?;
             if let Some(size) = size {
-                if size > i32::MAX as usize {
+                // CPython reads the number into a Py_ssize_t; a str is truncated to any such
+                // precision, a float precision is limited further in format_float
+                if size > isize::MAX as usize {
                     return Err(FormatSpecError::PrecisionTooBig);
                 }
                 (Some(size), remaining)
@@ -485,6 +487,9 @@ impl FormatSpec {
     pub fn format_float(&self, num: f64) -> Result<String, FormatSpecError> {
         self.validate_format(FormatType::FixedPoint(Case::Lower))?;
         let precision = self.precision.unwrap_or(6);
+        if precision > i32::MAX as usize {
+            return Err(FormatSpecError::PrecisionTooBig);
+        }
         let magnitude = num.abs();
         let raw_magnitude_str: Result<String, FormatSpecError> = match &self.format_type {
             Some(FormatType::FixedPoint(case)) => Ok(float::format_fixed(
